@@ -5,14 +5,15 @@ go 1.23
 require (
 	github.com/Flowpack/prunner v0.0.0
 	github.com/anishathalye/porcupine v1.3.0
+	github.com/apex/log v1.9.0
+	github.com/gofrs/uuid v4.2.0+incompatible
+	github.com/taskctl/taskctl v1.3.1-0.20210426182424-d8747985c906
 )
 
 require (
-	github.com/apex/log v1.9.0 // indirect
 	github.com/briandowns/spinner v1.18.1 // indirect
 	github.com/fatih/color v1.13.0 // indirect
 	github.com/friendsofgo/errors v0.9.2 // indirect
-	github.com/gofrs/uuid v4.2.0+incompatible // indirect
 	github.com/json-iterator/go v1.1.12 // indirect
 	github.com/logrusorgru/aurora v2.0.3+incompatible // indirect
 	github.com/mattn/go-colorable v0.1.12 // indirect
@@ -22,7 +23,6 @@ require (
 	github.com/modern-go/reflect2 v1.0.2 // indirect
 	github.com/pkg/errors v0.9.1 // indirect
 	github.com/sirupsen/logrus v1.8.1 // indirect
-	github.com/taskctl/taskctl v1.3.1-0.20210426182424-d8747985c906 // indirect
 	golang.org/x/sync v0.1.0 // indirect
 	golang.org/x/sys v0.3.0 // indirect
 	golang.org/x/term v0.3.0 // indirect
